@@ -38,6 +38,7 @@ Definition cbop_of_code (c a b e : Z) : cbop :=
 Definition uop_of_code (c a b e : Z) : uop :=
   if c =? 0 then UShutdown a else if c =? 1 then URestore a else if c =? 2 then UFailAt a b
   else if c =? 3 then UBlock a (negb (b =? 0)) else if c =? 4 then UAdjust a b else if c =? 5 then UAddRes a b
+  else if c =? 7 then UOffset a b
   else UCreateWO a b e.
 
 Definition capz (z : Z) : inf := if z <? 0 then None else Some z.
